@@ -105,3 +105,12 @@ package ios
 // matches cannot be proved): it must stay the reviewed one, which accepts every
 // message line between the asterisk lines (SHUTDOWN in ..., SHUTDOWN ABORTED).
 //vc:globalconst[C15] bannerRe regexp.MustCompile "\n\n\n\x07[*]{3}\n[*]{3}([^\n]+)\n[*]{3}\n"
+
+// ---- C20: removeBanner terminates ----
+// removeBanner preprocesses every IOS device configuration, Netspoc file and
+// raw file. Each iteration either leaves the loop (no further newline) or
+// consumes at least the newline it found - also inside a banner that is never
+// closed.
+//vc:func removeBanner
+//vc:  invariant[C20] 1 "for {" @cursorInsideData 0 <= j && j <= i && i <= len(data)
+//vc:  decreases[C20] 1 "for {" len(data) - i
